@@ -578,6 +578,77 @@ func s7c() {
 	vrt.Observe("closers=%d,%d", m.closerCalls, k.closerCalls)
 }
 
+func matchNoneOnce(h *net.Header) (bool, bool) { return false, false }
+
+// S8: every filter answer (matched x keep) on two frames, then / while the
+// handler is removed explicitly, then shutdown. A filter may remove itself
+// without consuming the message (matched=false, keep=false).
+func s8() {
+	kinds := []struct {
+		name  string
+		match func(h *net.Header) (bool, bool)
+		keep  bool
+		recv  int
+	}{
+		{"match-keep", matchAllKeep, true, 2},
+		{"match-once", matchAllOnce, false, 1},
+		{"nomatch-keep", matchNone, true, 0},
+		{"nomatch-once", matchNoneOnce, false, 0},
+	}
+	kind := kinds[vrt.ChooseFree(len(kinds), "filter-kind")]
+	concurrent := vrt.ChooseFree(2, "remover-concurrent") == 1
+	a, b := vnet.NewPair("ep", "peer")
+	ep := net.NewEndPoint(a)
+	x := register(ep, "x", kind.match, true)
+	k := register(ep, "keep", matchAllKeep, true)
+	vrt.Explore()
+	var rmErr error
+	ws := []*vrt.Thread{vrt.GoWorker("peer", func() {
+		m1, m2 := frame(1, 2), frame(2, 1)
+		m1.Write(b)
+		m2.Write(b)
+	})}
+	if concurrent {
+		ws = append(ws, vrt.GoWorker("remover", func() { rmErr = ep.RemoveHandler(x.id) }))
+	}
+	vrt.Quiesce()
+	workersDone(ws...)
+	if !concurrent {
+		if !kind.keep && x.closerCalls != 1 {
+			vrt.Failf("self-removal-closer-count/"+kind.name, "a filter answering keep=false on the first frame had its closer run %d times", x.closerCalls)
+		}
+		if len(x.received) != kind.recv {
+			vrt.Failf("filter-delivery/"+kind.name, "handler got %d messages, expected %d", len(x.received), kind.recv)
+		}
+		rmErr = ep.RemoveHandler(x.id)
+		vrt.Quiesce()
+		if !kind.keep && rmErr == nil {
+			vrt.Failf("removed-twice/"+kind.name, "RemoveHandler succeeded on a handler that had removed itself")
+		}
+		if kind.keep && rmErr != nil {
+			vrt.Failf("live-handler-not-removable/"+kind.name, "RemoveHandler of a live handler failed: %v", rmErr)
+		}
+	}
+	if x.closerCalls != 1 {
+		vrt.Failf("closer-count/"+kind.name, "closer invoked %d times after self-removal / explicit removal", x.closerCalls)
+	}
+	if len(x.received) > kind.recv {
+		vrt.Failf("delivered-after-removal/"+kind.name, "handler got %d messages, at most %d expected", len(x.received), kind.recv)
+	}
+	if len(k.received) != 2 {
+		vrt.Failf("keep-handler-count", "keep handler got %d of 2 messages", len(k.received))
+	}
+	if ep.RemoveHandler(x.id) == nil {
+		vrt.Failf("removed-handler-removable/"+kind.name, "removing an already removed handler succeeded")
+	}
+	x.check()
+	ep.Close()
+	vrt.Quiesce()
+	x.check()
+	k.check()
+	vrt.Observe("kind=%s concurrent=%v rmErr=%v recv=%d", kind.name, concurrent, rmErr != nil, len(x.received))
+}
+
 func init() {
 	add := func(name string, body func(), q, t int, doc string, must ...string) {
 		reg.Register(&reg.Scenario{Property: "C17", Name: name, Body: body, Quick: q, Thorough: t, Doc: doc, MustFlag: must})
@@ -594,5 +665,6 @@ func init() {
 	add("s7a-full-queue-call-remove", s7(false), 2, 5, "self-removing filter with a full queue gets a Call (error reply on the wire) || RemoveHandler", "consumer-blocked-answered")
 	add("s7b-full-queue-call-remove-close", s7(true), 2, 4, "same || Close()", "consumer-blocked-answered")
 	add("s7c-blocked-reply-then-close", s7c, 1, 3, "a Call for a full queue is answered on a synchronous pipe nobody reads; then Close()")
+	add("s8-filter-answers", s8, 1, 3, "every filter answer (matched x keep, including self-removal without consuming) on two frames, RemoveHandler after or during the traffic, then Close()")
 	add("s6-receiveany-close", s6, 2, 99, "ReceiveAny || two frames || Close()")
 }
